@@ -40,7 +40,15 @@ ExtraCells == [origin |-> <<0, 0, 0>>, offset |-> <<0, 0, 0>>, uneven |-> <<0, 1
 \* a range the function exceeds; a degenerate range (min = max, which the classes accept).  The bounds only rescale the
 \* cached values internally: every result below is the same for each of them.
 Bounds == [wide |-> <<-28, 52>>, exceeded |-> <<2, 4>>, degenerate |-> <<8, 8>>]
-ASSUME PrintT(ToJson([spacing |-> Spacing, origins |-> Origins, extracells |-> ExtraCells, bounds |-> Bounds]))
+\* the lattice the classes build from a requested resolution (quarters of a unit): int(extent / resolution) cells, but never
+\* fewer than one - a resolution coarser than the extent of the area along an axis gives a single cell there, whose nodes are
+\* the two ends of the range; the node spacing is extent / cells (the requested resolution only when it divides the extent)
+LatticeExtents == {2, 4, 10, 12}
+LatticeResolutions == {1, 3, 4, 5, 16}
+LatticeCells(e, r) == IF e \div r < 1 THEN 1 ELSE e \div r
+LatticeCases == {[extent |-> e, res |-> r, cells |-> LatticeCells(e, r)] : e \in LatticeExtents, r \in LatticeResolutions}
+ASSUME \A c \in LatticeCases : c.cells >= 1 /\ c.cells * c.res <= (IF c.res > c.extent THEN c.res ELSE c.extent)
+ASSUME PrintT(ToJson([spacing |-> Spacing, origins |-> Origins, extracells |-> ExtraCells, bounds |-> Bounds, lattice |-> LatticeCases]))
 Axis == 0..(N - 1)
 Cells == IF Dim = 1 THEN {<<i>> : i \in Axis} ELSE IF Dim = 2 THEN {<<i, j>> : i \in Axis, j \in Axis} ELSE {<<i, j, k>> : i \in Axis, j \in Axis, k \in Axis}
 St(i) == (i - 1)..(i + 2)
